@@ -34,6 +34,7 @@ type l3Driver struct {
 	exported bool
 	kinds    int
 	crossed  bool
+	blockDirty     bool  // a transaction was delivered into the currently open block
 	restartPending []int // replicas to SIGKILL + restart at the next block boundary
 	timeJump bool        // the next block's header time is the wall clock
 }
@@ -161,6 +162,7 @@ func (d *l3Driver) do(a *Action) {
 		outs = d.cl.Deliver(tx, a.Creator, nil)
 	}
 	res := d.s.Do(a)
+	d.blockDirty = true
 	if res.OK {
 		d.okTxs++
 	}
@@ -254,6 +256,7 @@ func (d *l3Driver) nextBlock() {
 		d.labels["restart"]++
 	}
 	d.restartPending = nil
+	d.blockDirty = false
 	d.cl.Begin(nil)
 }
 
@@ -282,7 +285,7 @@ func (d *l3Driver) setup() {
 func (d *l3Driver) genStep(t *rapid.T) *Action {
 	s, cfg := d.s, d.cfg
 	var a *Action
-	switch rapid.IntRange(0, 16).Draw(t, "step") {
+	switch rapid.IntRange(0, 17).Draw(t, "step") {
 	case 0, 1, 2:
 		a = cfg.GenStoreNew(t, s)
 		if a != nil {
@@ -311,12 +314,65 @@ func (d *l3Driver) genStep(t *rapid.T) *Action {
 		a.Ts = uint64(d.cl.Time.Unix()) - uint64(rapid.IntRange(0, 1200).Draw(t, "age"))
 	case 14:
 		a = d.genFault()
+	case 15, 16:
+		a = d.residueArm(t)
 	}
 	if a == nil {
 		a = NewAction("advance", 0)
 		a.Blocks = int64(rapid.SampledFrom([]int{1, 1, 1, 2, 3, 7, 22}).Draw(t, "blocks"))
 	}
 	return a
+}
+
+// residueArm aims at values that live in process memory between the two hooks of a staking pair:
+// a node's delegation is put right below the share threshold, then a staking transaction by that
+// node fails after the first hook (delivered, or only simulated on the replicas that serve
+// non-consensus traffic), one replica may be restarted, and then another delegator modifies an
+// existing delegation on the same validator. The steps are applied here; the last one is returned.
+func (d *l3Driver) residueArm(t *rapid.T) *Action {
+	s := d.s
+	w := &c20World{nodes: []int{3, 4}, thirds: []int{8, 9}}
+	n := rapid.SampledFrom(w.nodes).Draw(t, "residueNode")
+	v := rapid.IntRange(0, len(s.W.ValAddrs)-1).Draw(t, "residueVal")
+	p := rapid.SampledFrom(w.thirds).Draw(t, "residueThird")
+	// the other delegator needs an existing delegation (so that its next operation is a *modification*)
+	if _, ok := s.W.App.StakingKeeper.GetDelegation(s.C.Ctx(), s.acct(p).Addr, s.W.ValAddrs[v]); !ok {
+		x := NewAction("delegate", p)
+		x.Target, x.Amount = v, int64(rapid.IntRange(1000, 5000).Draw(t, "thirdStake"))
+		d.apply(x)
+	}
+	// the node's own stake right around the threshold
+	x := NewAction("delegate", n)
+	x.Target = v
+	x.Amount = w.aimAmount(t, s, n, v, true)
+	d.apply(x)
+	// a staking transaction of the node that stops after the first hook
+	switch rapid.IntRange(0, 2).Draw(t, "residueHow") {
+	case 0:
+		f := NewAction("delegate", n)
+		f.Target, f.Amount = v, 9_000_000_000_000_000
+		d.apply(f)
+	default:
+		nz := NewAction("noise", n)
+		nz.Target = -1
+		if d.prop == "C01" {
+			nz.Target = 0
+		}
+		nz.Extra = map[string]string{"op": "simulate-delegate"}
+		nz.Val, nz.Amount = v, rapid.SampledFrom([]int64{1000, 9_000_000_000_000_000}).Draw(t, "simAmount")
+		d.apply(nz)
+	}
+	if d.prop == "C03" && !d.every && rapid.Bool().Draw(t, "residueRestart") {
+		r := NewAction("restart", 0)
+		r.Target = 1
+		d.apply(r)
+		d.apply(adv1())
+	}
+	d.labels["residue-arm"]++
+	// the other delegator modifies its delegation
+	y := NewAction(rapid.SampledFrom([]string{"delegate", "undelegate"}).Draw(t, "thirdOp"), p)
+	y.Target, y.Amount = v, int64(rapid.IntRange(1, 900).Draw(t, "thirdAmount"))
+	return y
 }
 
 // genFault: a fishman (designated in the base genesis) reports a fault on a stored shard.
@@ -490,7 +546,13 @@ func head(a []string) []string {
 // at the exported height and run both from there.
 func (d *l3Driver) exportReinit() {
 	s := d.s
-	// the caller has just advanced a block: the open block is empty, the export point is the last commit
+	// the caller has just advanced a block: the open block is empty, the export point is the last commit.
+	// (A history mutilated by minimisation may lack that advance: exporting then would compare a chain
+	// with uncommitted transactions against an export that cannot contain them - not a round trip.)
+	if d.blockDirty || d.exported {
+		d.labels["export-skipped"]++
+		return
+	}
 	orig := d.cl.Reps[0]
 	// export = state after the last commit; the block the cluster has just opened is still empty
 	ex := d.cl.call(orig, &replica.Req{Op: "export"})
